@@ -75,7 +75,7 @@ func C10(r *core.Run) {
 		root := inproc.NewRoot(wd)
 		path := filepath.Join(wd, "regex-assembly/123456.ra")
 		var o out
-		enumFmtFiles(alphabet, in.FullLen, in.MaxLen, shard, n, func(lines []string, v fmtVariant, x string) {
+		visit := func(lines []string, v fmtVariant, x string) {
 			r.Inflight(x)
 			o.Files++
 			os.WriteFile(path, []byte(x), 0o644)
@@ -121,6 +121,13 @@ func C10(r *core.Run) {
 			}
 			if len(o.Fails) > 3000 {
 				o.Fails = o.Fails[:3000]
+			}
+		}
+		enumFmtFiles(alphabet, in.FullLen, in.MaxLen, shard, n, visit)
+		// lines that only mean something together (flags, definitions and references, blocks, stored names), one line longer
+		enumFmtFiles(fmtInteract, 0, in.MaxLen+1, shard, n, func(lines []string, v fmtVariant, x string) {
+			if len(lines) == in.MaxLen+1 {
+				visit(lines, v, x)
 			}
 		})
 		emit(o)
